@@ -50,7 +50,9 @@ def inTOf (lookup : Lookup) (K : List Bytes) (i : Nat) : Bool :=
   | none => false
 
 /-- the available keys of `availOf`, as indices: last index first -/
-theorem availOf_idx (F : KeyFacts C dig ht z K sg) (lookup : Lookup) (L : List Nat) (sgn : Nat → Bool)
+theorem availOf_idx {K : List Bytes} (L : List Nat)
+    (hinj : ∀ {i j : Nat} {k : Bytes}, i ∈ L → K[i]? = some k → K[j]? = some k → i = j) (lookup : Lookup)
+    (sgn : Nat → Bool)
     (hmem : ∀ i, i ∈ L ↔ (i < K.length ∧ sgn i = true)) :
     (availOf lookup (L.filterMap (fun i => K[i]?)) (enumFrom 0 K).reverse).map Prod.fst =
       (List.range K.length).reverse.filter (fun i => !sgn i && inTOf lookup K i) := by
@@ -69,7 +71,7 @@ theorem availOf_idx (F : KeyFacts C dig ht z K sg) (lookup : Lookup) (L : List N
       rw [List.mem_filterMap]
       constructor
       · rintro ⟨j, hj, hjk⟩
-        have := F.inj hjk hK
+        have := hinj hj hjk hK
         subst this
         exact ((hmem _).mp hj).2
       · intro hs
@@ -126,6 +128,47 @@ theorem sorted_map_idx (l : List Nat) (h : l.Pairwise (· < ·)) (sg : Nat → B
   have : (a : Int) < (b : Int) := by omega
   simp [this]
 
+/-- padding and sorting what was there (`L`, any order) plus what the pass added gives the next state's signature variables -/
+theorem assemble_pass (n m : Nat) (sg : Nat → Bytes) (ph : Bytes) (L : List Nat) (sgn inT : Nat → Bool)
+    (hnd : L.Nodup) (hmem : ∀ i, i ∈ L ↔ (i < n ∧ sgn i = true)) (hlm : L.length ≤ m) :
+    assemble m (some ph) ((L ++ picks n m sgn inT).map (fun (i : Nat) => ((i : Int), sg i))) =
+      List.replicate (m - (signedList n (passSet n m sgn inT)).length) (some ph) ++
+        (signedList n (passSet n m sgn inT)).map (fun i => some (sg i)) := by
+  have hperm0 : L.Perm (signedList n sgn) :=
+    (List.perm_ext_iff_of_nodup hnd (signedList_nodup _ _)).mpr (fun i => by rw [hmem, mem_signedList])
+  have hlen0 : L.length = (signedList n sgn).length := hperm0.length_eq
+  have hnd2 : (L ++ picks n m sgn inT).Nodup := by
+    rw [List.nodup_append]
+    refine ⟨hnd, picks_nodup _ _ _ _, ?_⟩
+    intro a ha b hb hab
+    subst hab
+    have h1 := ((hmem a).mp ha).2
+    have h2 := (mem_picks hb).2.1
+    rw [h1] at h2; cases h2
+  have hperm : (L ++ picks n m sgn inT).Perm (signedList n (passSet n m sgn inT)) := by
+    apply (List.perm_ext_iff_of_nodup hnd2 (signedList_nodup _ _)).mpr
+    intro i
+    rw [List.mem_append, hmem, mem_signedList]
+    simp only [passSet, Bool.or_eq_true, List.contains_iff_mem]
+    constructor
+    · rintro (⟨h1, h2⟩ | h)
+      · exact ⟨h1, Or.inl h2⟩
+      · exact ⟨(mem_picks h).1, Or.inr h⟩
+    · rintro ⟨h1, h2 | h2⟩
+      · exact Or.inl ⟨h1, h2⟩
+      · exact Or.inr h2
+  rw [assemble_perm m (some ph) (List.Perm.map _ hperm)]
+  have hle : ((signedList n (passSet n m sgn inT)).map (fun (i : Nat) => ((i : Int), sg i))).length ≤ m := by
+    rw [List.length_map, ← hperm.length_eq, List.length_append]
+    have : (picks n m sgn inT).length ≤ m - (signedList n sgn).length := by
+      unfold picks; exact List.length_take_le _ _
+    omega
+  rw [assemble_placeholders m ph _ (by intro p hp; simp at hp; obtain ⟨i, _, rfl⟩ := hp; simp) hle]
+  have hs := sorted_map_idx (signedList n (passSet n m sgn inT))
+    (by unfold signedList; exact List.Pairwise.filter _ List.pairwise_lt_range) sg
+  rw [sortSigs_of_sorted _ hs]
+  simp [List.map_map, Function.comp]
+
 /-- **One pass of `signing_solver` on a partially signed input.**  Whatever the order of the blobs, when the signature slots
 hold the signatures of the key set `sgn` (and placeholders / junk otherwise), the solver returns `m − |sgn'|` placeholders
 followed by the signatures of `sgn'` by key index, where `sgn'` adds to `sgn` the keys the lookup holds, last index first, until
@@ -143,47 +186,37 @@ theorem signingSolver_pass (F : KeyFacts C dig ht z K sg) (lookup : Lookup) (m :
     (List.perm_ext_iff_of_nodup hnd (signedList_nodup _ _)).mpr (fun i => by rw [hmem, mem_signedList])
   have hlen0 : (slotIdxs slots).length = (signedList K.length sgn).length := hperm0.length_eq
   have hlm : (slotIdxs slots).length ≤ m := Nat.le_trans (slotIdxs_length_le slots) hcount
-  -- the new signatures, as indices
   have hP : ((availOf lookup ((slotIdxs slots).filterMap (fun i => K[i]?)) (enumFrom 0 K).reverse).take
       (m - (slotIdxs slots).length)).map (fun (p : Nat × Bytes) => ((p.1 : Int), sg p.1)) =
       (picks K.length m sgn (inTOf lookup K)).map (fun (i : Nat) => ((i : Int), sg i)) := by
     have : (fun (p : Nat × Bytes) => ((p.1 : Int), sg p.1)) = (fun (i : Nat) => ((i : Int), sg i)) ∘ Prod.fst := rfl
-    rw [this, ← List.map_map, List.map_take, availOf_idx F lookup _ sgn hmem, hlen0]
+    rw [this, ← List.map_map, List.map_take, availOf_idx _ (fun _ hi hj => F.inj hi hj) lookup sgn hmem, hlen0]
     rfl
-  rw [hP, ← List.map_append]
-  -- as a set, what was there plus what was added is the new state
-  have hnd2 : (slotIdxs slots ++ picks K.length m sgn (inTOf lookup K)).Nodup := by
-    rw [List.nodup_append]
-    refine ⟨hnd, picks_nodup _ _ _ _, ?_⟩
-    intro a ha b hb hab
-    subst hab
-    have h1 := ((hmem a).mp ha).2
-    have h2 := (mem_picks hb).2.1
-    rw [h1] at h2; cases h2
-  have hperm : (slotIdxs slots ++ picks K.length m sgn (inTOf lookup K)).Perm
-      (signedList K.length (passSet K.length m sgn (inTOf lookup K))) := by
-    apply (List.perm_ext_iff_of_nodup hnd2 (signedList_nodup _ _)).mpr
-    intro i
-    rw [List.mem_append, hmem, mem_signedList]
-    simp only [passSet, Bool.or_eq_true, List.contains_iff_mem]
-    constructor
-    · rintro (⟨h1, h2⟩ | h)
-      · exact ⟨h1, Or.inl h2⟩
-      · exact ⟨(mem_picks h).1, Or.inr h⟩
-    · rintro ⟨h1, h2 | h2⟩
-      · exact Or.inl ⟨h1, h2⟩
-      · exact Or.inr h2
-  rw [assemble_perm m (some ph) (List.Perm.map _ hperm)]
-  have hle : ((signedList K.length (passSet K.length m sgn (inTOf lookup K))).map
-      (fun (i : Nat) => ((i : Int), sg i))).length ≤ m := by
-    rw [List.length_map, ← hperm.length_eq, List.length_append]
-    have : (picks K.length m sgn (inTOf lookup K)).length ≤ m - (signedList K.length sgn).length := by
-      unfold picks; exact List.length_take_le _ _
-    omega
-  rw [assemble_placeholders m ph _ (by intro p hp; simp at hp; obtain ⟨i, _, rfl⟩ := hp; simp) hle]
-  have hs := sorted_map_idx (signedList K.length (passSet K.length m sgn (inTOf lookup K)))
-    (by unfold signedList; exact List.Pairwise.filter _ List.pairwise_lt_range) sg
-  rw [sortSigs_of_sorted _ hs]
-  simp [List.map_map, Function.comp]
+  rw [hP, ← List.map_append, assemble_pass K.length m sg ph _ sgn _ hnd hmem hlm]
+
+/-- **The first pass over a fresh input** (no script, no witness): nothing is searched for, nothing is verified — no hypothesis
+on the keys beyond what the lookup holds -/
+theorem signingSolver_fresh (lookup : Lookup) (hz : dig ht = some z) (m : Nat) (ph : Bytes)
+    (hh : LookupHonest C lookup ht z sg (enumFrom 0 K).reverse) :
+    signingSolver C lookup dig K m [] ht (some ph) =
+      .ok (List.replicate (m - (signedList K.length (passSet K.length m (fun _ => false) (inTOf lookup K))).length) (some ph) ++
+           (signedList K.length (passSet K.length m (fun _ => false) (inTOf lookup K))).map (fun i => some (sg i))) := by
+  unfold signingSolver
+  simp only [findSignatures]
+  rw [signLoop_eq C lookup dig ht z hz m [] sg _ _ hh]
+  simp only [List.nil_append, List.length_nil, Nat.sub_zero]
+  have hP : ((availOf lookup [] (enumFrom 0 K).reverse).take m).map (fun (p : Nat × Bytes) => ((p.1 : Int), sg p.1)) =
+      (picks K.length m (fun _ => false) (inTOf lookup K)).map (fun (i : Nat) => ((i : Int), sg i)) := by
+    have : (fun (p : Nat × Bytes) => ((p.1 : Int), sg p.1)) = (fun (i : Nat) => ((i : Int), sg i)) ∘ Prod.fst := rfl
+    have h0 : (signedList K.length (fun _ => false)).length = 0 := by simp [signedList]
+    have := availOf_idx (K := K) [] (fun hi _ _ => by simp at hi) lookup (fun _ => false) (by intro i; simp)
+    rw [‹(fun (p : Nat × Bytes) => ((p.1 : Int), sg p.1)) = _›, ← List.map_map, List.map_take]
+    simp only [List.filterMap_nil] at this
+    rw [this]
+    unfold picks
+    rw [h0]; rfl
+  rw [hP]
+  have := assemble_pass K.length m sg ph [] (fun _ => false) (inTOf lookup K) List.nodup_nil (by intro i; simp) (by simp)
+  simpa using this
 
 end Pycoin.Sign
